@@ -33,7 +33,7 @@ type c19Case struct {
 
 var c19Ignores = []string{"node_modules/\n*.log", "a\r\nb\r\n", "a\n\n\n", "trail\\ \n", "x\n.spok/\n", "\n", " \t\n"}
 
-var c19Classes = []string{"failing-task-with-outputs", "valid", "valid-no-tasks", "syntax-error", "duplicate-task", "unknown-builtin", "failing-exec", "absent", "directory", "ident-rhs", "symlink", "dangling-symlink"}
+var c19Classes = []string{"unknown-template-func", "failing-task-with-outputs", "valid", "valid-no-tasks", "syntax-error", "duplicate-task", "unknown-builtin", "failing-exec", "absent", "directory", "ident-rhs", "symlink", "dangling-symlink"}
 
 func c19Text(class string, messy bool) (string, bool) {
 	valid := "# Project\nNAME := \"proj\"\n\n# Builds\ntask t(\"a.txt\", \"sub/*.txt\") {\n    echo building {{.NAME}}\n}\n\n# Other\ntask u(t) {\n    echo done\n}\n\n"
@@ -58,6 +58,9 @@ func c19Text(class string, messy bool) (string, bool) {
 		return "X := NAME\n" + valid, false // parses, but does not load
 	case "symlink":
 		return valid, true
+	case "unknown-template-func":
+		// parses, but does not load: the command calls a template function that does not exist (written unformatted)
+		return "NAME:=\"proj\"\ntask   t( \"a.txt\" ){ echo {{nosuchfunc .NAME}} }\ntask u(t) {\n\techo done\n}", false
 	case "failing-task-with-outputs":
 		// the outputs exist already (the harness wrote them a moment ago); the command fails without touching anything
 		return "OUTV := \"outv.txt\"\n\n# Builds\ntask t(\"a.txt\") -> (\"out.txt\", OUTV, \"gen/*.o\") {\n    echo before\n    false\n}\n\n# Other\ntask u(t) {\n    echo done\n}\n\n", true
@@ -137,6 +140,10 @@ func c19Run(root string, c c19Case) (obs []c19Obs, outcome string) {
 	t.File("home/w/sibling.txt", "sibling\n")
 	t.File("outside.txt", "outside\n")
 	t.File("home/w/proj/a.txt", "a\n")
+	// files that editors, patch and merge tools leave next to a spokfile
+	for _, n := range []string{"spokfile.orig", "spokfile.bak", "spokfile~", ".spokfile.swp", "spokfile.tmp", "spokfile.rej"} {
+		t.File("home/w/proj/"+n, "not spok's business: "+n+"\n")
+	}
 	t.File("home/w/proj/out.txt", "built earlier\n")
 	t.File("home/w/proj/outv.txt", "built earlier\n")
 	t.File("home/w/proj/gen/x.o", "built earlier\n")
